@@ -91,7 +91,7 @@ PROPS = {
     "C06": dict(focus=["C06", "EXC"], gen=_cfg_c06, nrand=(220, 2500), nsim=(60, 600), sim="sim-pr", sim2="sim-life",
                 design=(["pr-tiny", "pr-fwdloss"], ["pr-tiny", "pr-fwdloss", "pr-back", "pr-life", "pr-small", "pr-big", "pr-mix"]),
                 witnesses=["W_NoAbandon", "W_NoRetransmission", "W_NotAllDelivered"],
-                deviations=[("NoPopAfterPrune", "pr-tiny"), ("NoFwdResend", "pr-fwdloss"), ("FwdSeqBackward", "pr-back"),
+                deviations=[("NoFwdResend", "pr-fwdloss"), ("FwdSeqBackward", "pr-back"),
                             ("AbandonSentOnly", "pr-big"), ("PruneAllStreams", "pr-small"), ("FlightLeakOnAbandon", "pr-big")],
                 bind="C06"),
     "C13": dict(focus=["C13", "EXC"], gen=_cfg_c13, nrand=(300, 3000), nsim=(0, 0), sim=None,
